@@ -20,7 +20,7 @@ result = {stage: 'ops' | 'build' | 'done', op: index of the failing op, err: kin
           tx: hex of build_and_sign(...).to_cbor(), wits_nodup: hex of build_witness_set(False).to_cbor(),
           rl: [[rid, tag, index, mem, steps], ...] the builder's _redeemer_list after the build,
           script_hashes: [hex28 per sid as pycardano.script_hash computes it], evals: number of evaluate calls,
-          n_inputs: number of inputs of the body}
+          n_inputs: number of inputs of the body, dflt: hex of cbor2.dumps(plutus.COST_MODELS)}
 """
 from _pre import *
 from fractions import Fraction
@@ -32,6 +32,9 @@ from pycardano import (Address, Asset, AssetName, ExecutionUnits, MultiAsset, Na
 from pycardano.backend.base import ChainContext, GenesisParameters, ProtocolParameters
 from pycardano.network import Network
 
+from pycardano.plutus import COST_MODELS
+from pycardano.serialization import default_encoder
+DFLT = cbor2.dumps(COST_MODELS, default=default_encoder).hex()      # the fallback of utils.script_data_hash
 TAGNAME = {0: 'spend', 1: 'mint', 2: 'certificate', 3: 'withdrawal', 4: 'voting', 5: 'proposing'}
 
 
@@ -153,7 +156,7 @@ def handler(case, payload):
     ctx = Ctx(case, [])
     net = ctx.network
     scripts = [mk_script(s) for s in case['scripts']]
-    res = {'script_hashes': [script_hash(s).payload.hex() for s in scripts]}
+    res = {'script_hashes': [script_hash(s).payload.hex() for s in scripts], 'dflt': DFLT}
     utxos = [mk_utxo(u, scripts, net) for u in case['utxos']]
     ctx.table = utxos
     B = case['build']
